@@ -5,6 +5,7 @@ the tables are read (the concrete part is what the Go side replays).
       → r=fail|t<idx>|c<idx> last=<idx|-> okset=<bits>      okset[i] = an index the property accepts
   ov <level> … | <n> <vkpos> <nv> <aff rows> <diff rows>
       → r=ok final=<pos> greater=<pos.pos> rounds=<k> laws=<0|1> okset=<bits>
+  up 0 <hex json> | <requirement blocks>                                     (Update on a whole pom; see handleUp)
   mo 0 <hex json> | <levels> <counts> <pins0> <lres> <nv> <aff> <diffs>     (several packages; see handleMo)
   sg <level> … | <simple> <cur rank|-> <curId|-> <id:rank:diff:mat,…>
       → r=keep|update:<id> okset=<bits over ids> cls=-
@@ -154,6 +155,35 @@ def handleMo (tb : List String) : String :=
     | _, _, _, _, _ => "bad-op"
   | _ => "bad-op"
 
+/-- up … | <dup 0|1> <blocks /> ; block = level;skip;simple;cur|-;curId|-;rows   rows = id:rank:diff:mat,…
+    → r=ok ups=<i:id ,> pom=<per requirement: id or = ,> oks=<okset per requirement ;> -/
+def handleUp (tb : List String) : String :=
+  match tb with
+  | [dup, blocks] =>
+    let parseB : String → Option Suggest.RB := fun b =>
+      match b.splitOn ";" with
+      | [lv, sk, si, cur, cid, rows] =>
+        match lv.toNat?, boolOf? sk, boolOf? si, (listOf rows ",").mapM parseV with
+        | some lv, some sk, some si, some vs =>
+          some ⟨lv, sk, si, (cur.toNat?).map fun r => ⟨vs.length + 1, r, dSame, true⟩, cid.toNat?, vs⟩
+        | _, _, _, _ => none
+      | _ => none
+    match (listOf blocks "/").mapM parseB with
+    | some rbs =>
+      let res := Suggest.suggestPatch rbs
+      let idx := List.range res.length
+      let ups := (idx.zip res).filterMap fun (i, r) => match r with | .update v => some s!"{i}:{v.id}" | .keep => none
+      let pom := res.map fun r => match r with | .update v => toString v.id | .keep => "="
+      let oks := rbs.map fun rb => showBits (rb.vs.map fun v => match rb.cur with
+        | some c => decide (c.rank < v.rank) && allows rb.level v.diff && rb.level != lNone && !rb.skip
+        | none => false)
+      -- two declarations with one dependency key: which of them the writer rewrites is C13/pom-origin-ignored, so the
+      -- written pom is reported under another field name and not compared
+      let field := if dup = "1" then "pomd" else "pom"
+      s!"r=ok ups={joinWith "," ups} {field}={joinWith "," pom} oks={joinWith ";" oks}"
+    | none => "bad-op"
+  | _ => "bad-op"
+
 def handle (line : String) : String :=
   match line.splitOn " | " with
   | [conc, tables] =>
@@ -163,7 +193,7 @@ def handle (line : String) : String :=
       | some level =>
         let tb := tables.splitOn " "
         if op = "rx" then handleRx level tb else if op = "ov" then handleOv level tb
-        else if op = "sg" then handleSg level tb else if op = "mo" then handleMo tb else "bad-op"
+        else if op = "sg" then handleSg level tb else if op = "mo" then handleMo tb else if op = "up" then handleUp tb else "bad-op"
       | none => "bad-op"
     | _ => "bad-op"
   | _ => "bad-op"
